@@ -21,7 +21,29 @@ import (
 )
 
 // rejectedInputs lists one representative of every class of input that a reload must reject.
+// globalOverrides are keys of the global block for which the loader has built-in defaults; every
+// rejected input also sets them, so that a rejected file which leaks into the running configuration
+// (shared default objects) shows in the served text.
+const globalOverrides = "  pagerduty_url: http://rejected.example/pd\n  opsgenie_api_url: http://rejected.example/og\n  victorops_api_url: http://rejected.example/vo\n  wechat_api_url: http://rejected.example/wc\n  telegram_api_url: http://rejected.example/tg\n  webex_api_url: http://rejected.example/wx\n  rocketchat_api_url: http://rejected.example/rc\n  slack_app_url: http://rejected.example/sl\n  smtp_hello: rejected.example\n"
+
+func withGlobals(y string) string {
+	if strings.HasPrefix(y, "global:\n") {
+		return "global:\n" + globalOverrides + strings.TrimPrefix(y, "global:\n")
+	}
+	return "global:\n" + globalOverrides + y
+}
+
 func rejectedInputs(valid, rootReceiver string) map[string]string {
+	m := rejectedInputs0(valid, rootReceiver)
+	for k, v := range m {
+		if k != "yaml syntax error" {
+			m[k] = withGlobals(v)
+		}
+	}
+	return m
+}
+
+func rejectedInputs0(valid, rootReceiver string) map[string]string {
 	return map[string]string{
 		"yaml syntax error":                "route: [",
 		"undefined receiver":               "route:\n  receiver: nope\nreceivers:\n  - name: r0\n",
